@@ -76,8 +76,11 @@ def run(ck, F, tier):
     if isinstance(rv, tuple) and rv[0] == "ctor" and rv[1] == "Ok" and isinstance(rv[2][0], tuple) and rv[2][0][0] == "struct":
         fl = rv[2][0][2]
         be = fl.get("bit_errors")
-        s = repr(be)
-        okb = "std::iter::Iterator::count" in s and "zip" in s and repr(MSG) in s and "proj0(match(decoder::LdpcDecoder::decode" in s.replace("P', ", "")
+        from ..idioms import mismatch_count
+        pair = mismatch_count(F, be, tr)
+        DEC = app("decoder::LdpcDecoder::decode", *dec[0].args)
+        # the decoded word: the codeword field of the decoder's output, Ok and Err alike
+        okb = pair is not None and MSG in pair and app(".codeword", app("either_payload", DEC)) in pair
         fe = fl.get("frame_error")
         fd = fl.get("false_decode")
         okf = fe == app("lt", num(0), be) and single_atom(fd) is not None and atom_fn(single_atom(fd)) == "and" and atom_args(single_atom(fd))[0] == fe
@@ -100,7 +103,9 @@ def run(ck, F, tier):
 
     # ---- B3 ---------------------------------------------------------------------------------------
     rb = F.body(T + "do_run")
-    tr2 = Tracer(F, re.escape(T) + r"make_worker", mode="real")
+    # private helpers of BerTest (e.g. an extracted Eb/N0 -> sigma function) are expanded; make_worker stays the observed call
+    helpers = [p for p in F.bodies if p.startswith(T) and not p.endswith("make_worker") and F.private_helper(p, T) is not None and p != rb.path]
+    tr2 = Tracer(F, re.escape(T) + r"make_worker", mode="real", inline=lambda p: F.bodies.get(p) if p in helpers else None)
     env = {}
     tr2.bind(rb.params[0], var("self"), env)
     # make_worker is called inside the repeat_with closure: evaluate that closure explicitly
@@ -112,7 +117,7 @@ def run(ck, F, tier):
     if not mk:
         # find the closure and apply it in the environment of the loop body
         from ..panics import SiteTracer
-        st = SiteTracer(F, contracts=re.escape(T) + r"make_worker", no_inline=r"simulation::.*|std::.*", mode="real")
+        st = SiteTracer(F, contracts=re.escape(T) + r"make_worker", no_inline=(r"(?!(?:%s)$)" % "|".join(re.escape(h) for h in helpers) if helpers else "") + r"(?:simulation::.*|std::.*)", mode="real")
         env = {}
         st.bind(rb.params[0], var("self"), env)
         st.fn_stack.append(rb.path)
